@@ -24,6 +24,8 @@ for prop, spec in ROOTS.items():
         ids += [b.id for b in bs]
         for b in bs:
             ids += [c.id for c in P.closures_of(b) if c.raw.get('coroutine')]
+    if spec.get('root_regex'):
+        ids += [b.id for b in P.bodies.values() if b.raw['promoted'] is None and re.search(spec['root_regex'], b.path) and b.id not in ids]
     par = panic.reachable(P, ids, stopf)
     n = nd = na = 0
     sites = []
